@@ -501,7 +501,8 @@ RECORDS = {
 }
 MODELLED_RECORDS = set(RECORDS)
 ORACLE_ONLY_RECORDS = {16: "WalReceiptCorrelationRecord", 17: "IngressEnvelopeRetained(v2,v1-legacy)", 18: "WalRuntimeStateDeltaRecord",
-                       19: "MbusFramesV1", 20: "MbusPacketsV2", 21: "EintLog", 22: "IngressEnvelopeValue(constructor->bytes->value)"}
+                       19: "MbusFramesV1", 20: "MbusPacketsV2", 21: "EintLog", 22: "IngressEnvelopeValue(constructor->bytes->value)",
+                       23: "WalReceiptCorrelationValue(constructor->bytes->value)"}
 
 
 def _rb(rng, n):
@@ -578,6 +579,11 @@ def _parents17(rng):
 
 def gen_irregular(rng, rid):
     le = lambda n, w: (n & (2 ** (8 * w) - 1)).to_bytes(w, "little")
+    if rid == 23:
+        ps = [p[1:] for p in _parents17(rng)]
+        rng.shuffle(ps)
+        if ps and rng.random() < 0.15: ps.append(ps[0])
+        return _ctrr(rng) + b"".join(ps)
     if rid == 22:
         ps = _parents17(rng)
         rng.shuffle(ps)
@@ -587,9 +593,13 @@ def gen_irregular(rng, rid):
         parents = [_ctrr(rng) for _ in range(rng.choice([0, 0, 1, 2, 3, 4]))]
         if rng.random() < 0.3 and parents:      # shared prefix so that the tick fields decide the order
             base = parents[0]; parents += [base[:32] + le(rng.getrandbits(64), 8) + base[40:] for _ in range(2)]
+        if rng.random() < 0.3 and parents:      # boundary ticks: little-endian byte order and numeric order disagree
+            base = parents[0]
+            parents = [base[:32] + le(rng.choice(_TICKS), 8) + le(rng.choice(_TICKS), 8) + base[48:] for _ in range(rng.choice([2, 3, 4]))]
         mode = rng.random()
-        if mode < 0.7: parents = sorted(set(parents), key=_ctrr_key)
-        elif mode < 0.8 and parents: parents.append(parents[0])
+        if mode < 0.6: parents = sorted(set(parents), key=_ctrr_key)
+        elif mode < 0.8: parents = sorted(set(parents))      # bytewise order
+        elif mode < 0.9 and parents: parents.append(parents[0])
         body = b"ERCOR002" + _ctrr(rng)
         if parents or rng.random() < 0.1: body += le(len(parents), 8) + b"".join(parents)
         return body
